@@ -1,3 +1,4 @@
+import FlowRecordProofs.Lemmas.PackIgnore
 import FlowRecordProofs.Lemmas.Writers
 /-!
 C17 — writers lose nothing: close, split and rotation keep every record once.
@@ -364,3 +365,17 @@ example : (run sqliteFlags (Life.init : Life Nat) [.write 0, .bad false, .write 
 example : (outcomes sqliteFlags (Life.init : Life Nat) [.write 0, .bad true, .close, .bad false]) =
     [.ok, .raised, .ok, .raised] := by decide
 
+
+
+/-- THE COMPARISON-IGNORE CONFIGURATION CONCERNS == AND hash() ONLY: whatever configuration is in force
+    (FLOW_RECORD_IGNORE, `set_ignored_fields_for_comparison`, a `with ignore_fields_for_comparison(...)` block around a
+    de-duplicating producer), every writer stores complete records: the packer asks `Record._pack` to leave out nothing.
+    Premises: the regenerated source facts (`Gen.recordPackReadsGlobalIgnore`, `recordPackExcludedDefault`,
+    `packerPassesExcluded`). -/
+theorem C17_ignore_configuration_never_reaches_the_writer (globalIg : List (List Nat))
+    (names : List (List Nat)) {α : Type} (vals : List α) (h : names.length = vals.length) :
+    FlowRecord.Equality.packerExcluded globalIg = [] ∧
+    FlowRecord.Equality.keep (FlowRecord.Equality.packerExcluded globalIg) names vals = vals := by
+  refine ⟨FlowRecord.Equality.packerExcluded_nil globalIg, ?_⟩
+  rw [FlowRecord.Equality.packerExcluded_nil globalIg]
+  exact FlowRecord.Equality.keep_nil names vals h
